@@ -166,7 +166,8 @@ class Env:
         # fewer patches than source 1, so whatever an earlier source left on now-hidden patches would show
         self.src2_outside = bool(rng.random() < 0.35)
         if self.src2_outside:
-            pos = np.array(S.draw_inside(rng, self.dims), dtype=float)
+            # ... moved there from source 1 along one axis only (the other two coordinates are shared)
+            pos = np.array(self.src[1].cartesian, dtype=float).reshape(3).copy()
             ax = int(rng.integers(0, 3))
             pos[ax] = (self.dims[ax] + float(rng.uniform(0.3, 1.0))) if rng.random() < 0.5 else -float(rng.uniform(0.3, 1.0))
             self.src[2] = pf.Coordinates(*pos)
